@@ -184,8 +184,8 @@ func run(repo, dir string, seed uint64, nunits, nvalues int, cfg idlgen.Config, 
 	}
 	fcfg := cfg
 	fcfg.NoTypedefContainers = true // fastgo dereferences nil on typedef'd containers, see docs/BATCH-notes.md
-	fcfg.SharedGoNS = false          // fastgo: every k-*.go of a package declares ThriftGoUnusedProtection
-	fcfg.BinaryDefaults = false      // fastgo omits a nil optional binary with default, Write emits it empty (C10 finding)
+	fcfg.SharedGoNS = false         // fastgo: every k-*.go of a package declares ThriftGoUnusedProtection
+	fcfg.BinaryDefaults = false     // fastgo omits a nil optional binary with default, Write emits it empty (C10 finding)
 	fcfg.BinaryMapKeys = false      // fastgo: FastRead of map<binary,…> does not compile
 	fcfg.NoGoNS = false             // fastgo's local variables (b, p, x, l, …) shadow a package of that name
 	units = append(units, batch.Unit{Prog: idlgen.Generate(r, fcfg), Backend: "fastgo", Recurse: true, Tag: "fastgo"})
